@@ -678,10 +678,26 @@ def is_bitstr_80():
 
 
 @lemma
+def div_lt128(r: Int, q: Int):
+    requires(0 <= r and q > 0 and r < 128 * q)
+    ensures(r // q < 128 and r // q >= 0)
+    if r // q >= 128:
+        mul_mono(128, r // q, q)
+
+
+@lemma
 def clear_top(v: Int, q: Int):
     """dropping everything above 7 bits over a unit q:  (v mod 128q) div q == (v div q) mod 128"""
     requires(v >= 0 and q > 0)
     ensures((v % (128 * q)) // q == (v // q) % 128)
+    a = v // (128 * q)
+    r = v % (128 * q)
+    c = r // q
+    d = r % q
+    div_lt128(r, q)
+    assert v == (128 * a + c) * q + d
+    div_cat(128 * a + c, d, q)
+    mod_cat(a, c, 128)
 
 
 @lemma
